@@ -6,7 +6,7 @@
 cd "$(dirname "$0")/.."
 V=$(pwd)
 PIN=dcff49b
-declare -A DIR=( [C02]=persistence/subscription/mem [C06-m1]=. [C06-m2]=pkg/packets [C09-m1]=persistence/queue/redis [C09-m2]=persistence/subscription/redis [C10]=persistence/queue/mem [C10-m3]=persistence/queue/redis [C13-m2]=topicalias/fifo [C16]=plugin/federation [C17]=plugin/federation [C19]=plugin/auth )
+declare -A DIR=( [C02]=persistence/subscription/mem [C06-m1]=. [C06-m2]=pkg/packets [C09-m1]=persistence/queue/redis [C09-m2]=persistence/subscription/redis [C10]=persistence/queue/mem [C10-m3]=persistence/queue/redis [C06-m3]=pkg/packets [C09-m3]=persistence [C11-m3]=server [C13-m2]=topicalias/fifo [C16]=plugin/federation [C17]=plugin/federation [C19]=plugin/auth )
 one() {
   id=$1; d=$V/seeded/$id; prop=${id%%-*}
   tgt=${DIR[$id]:-${DIR[$prop]:-server}}
@@ -18,11 +18,12 @@ one() {
     cd $wt
     demo=$tgt/zz_seed_${id//-/_}_test.go
     cp $d/demo_test.go.txt $demo
-    base=$(go test -mod=mod -vet=off -count=1 ./$tgt/ 2>&1 | tail -3 | tr '\n' ' ')
+    runarg=""; [ -f $d/run ] && runarg="-run $(cat $d/run)"
+    base=$(go test -mod=mod -vet=off -count=1 $runarg ./$tgt/ 2>&1 | tail -3 | tr '\n' ' ')
     basepass=$(echo "$base" | grep -c '^ok\|ok  ')
     git apply $d/patch.diff || { echo "$id: patch does not apply to $pin"; exit; }
     build=$(go build -mod=mod ./... 2>&1 | tail -2)
-    with=$(go test -mod=mod -vet=off -count=1 ./$tgt/ 2>&1 | tail -3 | tr '\n' ' ')
+    with=$(go test -mod=mod -vet=off -count=1 $runarg ./$tgt/ 2>&1 | tail -3 | tr '\n' ' ')
     rm $demo
     suite=$(go test -mod=mod -vet=off -count=1 ./... 2>&1 | grep -E '^(FAIL|---)' | tr '\n' ' ')
     echo "id=$id target=$tgt base=$pin"
